@@ -688,6 +688,8 @@ def show(e, depth=0):
     if k == "arg":
         return e[2] or "arg%d" % e[1]
     if k == "var":
+        if len(e) < 3:
+            return str(e[1])
         return (e[2] or "") + "_%d" % e[1]
     if k == "bin":
         return "%s(%s, %s)" % (e[1], show(e[2], d), show(e[3], d))
